@@ -19,6 +19,7 @@ import (
 )
 
 type Cfg struct {
+	Aliases     bool // components that are only a reference to a sibling component
 	Unusual     bool // legal-but-unusual features (C10)
 	MaxPaths    int
 	SchemaDepth int
@@ -138,6 +139,20 @@ func Conforming(t *rapid.T, cfg Cfg) M {
 		// document is validated
 		b.comps["schemas"]["RWExample"] = M{"type": "object", "properties": M{"ro": M{"type": "string", "readOnly": true}, "wo": M{"type": "string", "writeOnly": true}},
 			"required": []any{"ro", "wo"}, "example": M{"ro": "a", "wo": "b"}}
+	}
+	if (cfg.Unusual || cfg.Aliases) && b.chance(3, "aliases") {
+		// components that are nothing but a reference to a sibling (added last: nothing refers to them,
+		// and the generator never has to look through them)
+		for _, sec := range jv.Keys(b.comps) {
+			names := jv.Keys(b.comps[sec])
+			if len(names) == 0 || !b.chance(2, "alias:"+sec) {
+				continue
+			}
+			target := b.pick(names, "aliasof:"+sec)
+			if tm, ok := b.comps[sec][target].(M); ok && tm["$ref"] == nil {
+				b.comps[sec]["ZAlias"] = M{"$ref": "#/components/" + sec + "/" + target}
+			}
+		}
 	}
 	comps := M{}
 	for k, m := range b.comps {
